@@ -2830,9 +2830,13 @@ fn run_sequence(w: &mut NdjsonWriter, rng: &mut ChaCha20Rng, base: &Base, reds: 
     if !base.tkeys.is_empty() {
         closing.push(Op::Finalize);
     }
+    // (a copy that conflicts is left out: copy 0 is completed by the remaining steps on its own)
     let mut all_ok = true;
     for op in closing {
-        all_ok &= apply_logged(w, base, reds, keys, &mut copies, &mut proj, 0, &op, ops_log, stats)?;
+        let ok = apply_logged(w, base, reds, keys, &mut copies, &mut proj, 0, &op, ops_log, stats)?;
+        if !matches!(op, Op::Combine { .. }) {
+            all_ok &= ok;
+        }
     }
     let needs_proof = list_len(&proj[0].1, "orchard") + list_len(&proj[0].1, "ironwood") + list_len(&proj[0].1, "sspend") + list_len(&proj[0].1, "soutput") > 0;
     let have_proof = have_proof_keys(keys);
